@@ -123,10 +123,14 @@ def processBrk (header : String) (lines : List String) (showWitness : Bool) : St
       let out := match monC09.firstFail monC09.init 0 wit with
         | some k => out ++ s!"monitor[C09]=violation@{k}:{reprB (wit.getD k .bproc)} "
         | none =>
-          (match monC09.run monC09.init wit with
-           | some st => if q && !st.quiescentOk then out ++ s!"monitor[C09]=violation@{wit.length}:missing-delivery-topic-{j} "
-                        else out ++ "monitor[C09]=ok "
-           | none => out)
+          -- the hypothesis of `C09_holds` (no publication number is published twice) holds of the trace
+          (match wfC09.firstFail wfC09.init 0 ls with
+           | some k => out ++ s!"monitor[C09]=violation@{k}:wf09-publication-number-reused:{reprB (ls.getD k .bproc)} "
+           | none =>
+             (match monC09.run monC09.init wit with
+              | some st => if q && !st.quiescentOk then out ++ s!"monitor[C09]=violation@{wit.length}:missing-delivery-topic-{j} "
+                           else out ++ "monitor[C09]=ok "
+              | none => out))
       if showWitness then out ++ "\n  witness: " ++ " ; ".intercalate (wit.map reprB) ++ "\n" else out
     | .rejected k l f =>
       -- the model cannot explain the history; the specification is still asked about the observable events
@@ -134,10 +138,13 @@ def processBrk (header : String) (lines : List String) (showWitness : Bool) : St
       (match monC09.firstFail monC09.init 0 ls with
        | some k => out ++ s!"monitor[C09]=violation@{k}:{reprB (ls.getD k .bproc)} "
        | none =>
-         (match monC09.run monC09.init ls with
-          | some st => if q && !st.quiescentOk then out ++ s!"monitor[C09]=violation@{ls.length}:missing-delivery-topic-{j} "
-                       else out
-          | none => out)))
+         (match wfC09.firstFail wfC09.init 0 ls with
+          | some k => out ++ s!"monitor[C09]=violation@{k}:wf09-publication-number-reused:{reprB (ls.getD k .bproc)} "
+          | none =>
+            (match monC09.run monC09.init ls with
+             | some st => if q && !st.quiescentOk then out ++ s!"monitor[C09]=violation@{ls.length}:missing-delivery-topic-{j} "
+                          else out
+             | none => out))))
     s!"{header} :: "
 
 end Hannibal.Driver
